@@ -113,13 +113,17 @@ pub fn build_graph<IntT: for<'a> UInt<'a>>(
                 crate::verif_hooks::sched_point(3);
 
                 let encode_full = IntT::encode_kmer_str(&full_kmer);
+                // with single-strand input a k-mer and its reverse complement can both be
+                // rows: take the union of their samples rather than whichever came first
                 kmer_samples
                     .entry(encode_full)
+                    .and_modify(|b| b.union_with(&bitset_samples))
                     .or_insert_with(|| bitset_samples.clone());
                 #[cfg(feature = "verif-hooks")]
                 crate::verif_hooks::sched_point(4);
                 kmer_samples
                     .entry(IntT::rev_comp(encode_full, len_kmer))
+                    .and_modify(|b| b.union_with(&bitset_samples))
                     .or_insert_with(|| bitset_samples.clone());
             }
         });
